@@ -423,7 +423,10 @@ type ReadSched struct {
 }
 
 func GenReadSched(r *core.RNG) ReadSched {
-	switch r.Intn(7) {
+	switch r.Intn(8) {
+	case 7:
+		// a byte-oriented consumer (compress/flate, encoding/gob): uses ReadByte if the reader offers it
+		return ReadSched{Mode: "bytereader"}
 	case 6:
 		// a few Read calls (a magic number, a header), then io.Copy for the rest
 		return ReadSched{Mode: "read-then-copy", Seed: r.U64() % 1000, Max: r.Pick(1, 4, 100, 65535, 65536, 70000)}
@@ -457,6 +460,35 @@ func (s *plainSink) Write(p []byte) (int, error) {
 
 // Drain reads r to its terminal error under the schedule.
 func Drain(r io.Reader, rs ReadSched, res *DecResult, onRead func(released int)) {
+	if rs.Mode == "bytereader" {
+		if br, ok := r.(io.ByteReader); ok {
+			for {
+				b, err := br.ReadByte()
+				res.Reads++
+				if err != nil {
+					res.Err = err
+					break
+				}
+				res.Released = append(res.Released, b)
+				if onRead != nil {
+					onRead(len(res.Released))
+				}
+			}
+			// what the reader says afterwards through Read
+			if res.Err == io.EOF {
+				if n, err := r.Read(make([]byte, 1)); n != 0 || err != io.EOF {
+					res.Sticky = false
+					res.StickyNote = fmt.Sprintf("after ReadByte reported EOF, Read returned (%d, %v)", n, err)
+				} else {
+					res.Sticky = true
+				}
+			} else {
+				res.Sticky = true
+			}
+			return
+		}
+		rs = ReadSched{Mode: "one"}
+	}
 	if rs.Mode == "read-then-copy" {
 		// one or two Reads first
 		rng := core.NewRNG(rs.Seed ^ 0x7c)
